@@ -193,6 +193,10 @@ def run(ctx):
            "result_list[elem_d] = value; recurse on elem_d - 1" if okplace and rec_ok else "the value is not placed at `elem_d` or the recursion does not descend by one position")
     ctx.ob("R-ENUM", up, "only values with remaining occurrences are placed", gd, "occurrences > 0" if gd else "guard missing or weakened" if gd is False else "guard not recognised", required=gd is not None)
     pm = m.func("perfect_matchings.perfect_matchings")
+    # the objects to be matched may be any distinct labels (the docstring allows a list or array of them): a result buffer with a fixed
+    # integer dtype that receives them by item assignment truncates non-integer labels (vstack / hstack promote instead)
+    from ..rules import r_dtype_default_buffer
+    r_dtype_default_buffer(ctx, pm, "num")
     Nm = Normalizer(m, pm, inline=False)
     lp = [n for n in walk_no_nested(pm.node) if isinstance(n, ast.For)]
     okm = bool(lp) and Nm(lp[0].iter) == ("call", "builtins.range", (("c", 1), ("n", "len_num")), ())
